@@ -731,9 +731,16 @@ func init() {
 		}
 		return call(fr.i, fr, token.NoPos, nf, nil)
 	})
-	reg("(*sync/atomic.Value).Store", "plain cell", func(fr *frame, args []value) value {
+	reg("(*sync/atomic.Value).Store", "plain cell (monitored like a store)", func(fr *frame, args []value) value {
 		p := args[0].(*value)
 		s := (*p).(structure)
+		if ps := fr.i.ps; ps != nil && ps.monitor != nil && ps.monitor.enabled {
+			if root, ok := ps.monitor.cells[p]; ok {
+				ps.monitor.recs["atomic.Value.Store to frozen "+root+" in "+callerName(fr)]++
+			} else if root, ok := ps.monitor.cells[&s[0]]; ok {
+				ps.monitor.recs["atomic.Value.Store to frozen "+root+" in "+callerName(fr)]++
+			}
+		}
 		s[0] = args[1]
 		return nil
 	})
@@ -745,64 +752,114 @@ func init() {
 		}
 		return iface{}
 	})
-	reg("(*sync.Map).Store", "association table", func(fr *frame, args []value) value {
-		m := fr.i.syncMap(args[0].(*value))
-		if m.frozen {
-			if ps := fr.i.ps; ps != nil && ps.monitor != nil {
-				ps.monitor.recs["sync.Map.Store on a package-level map in "+callerName(fr)]++
-			}
-		}
-		k := args[1].(iface)
-		if containsSym(k) {
-			unsupported("sync.Map.Store with a symbolic key")
-		}
-		for i := range m.keys {
-			if equals(k.t, m.keys[i], k) {
-				m.vals[i] = args[2]
-				return nil
-			}
-		}
-		m.keys = append(m.keys, k)
-		m.vals = append(m.vals, args[2])
-		return nil
-	})
-	reg("(*sync.Map).Load", "association table", func(fr *frame, args []value) value {
-		m := fr.i.syncMap(args[0].(*value))
-		k := args[1].(iface)
+	// smFind locates key k (possibly symbolic) among the stored keys by solver-decided comparisons.
+	smFind := func(fr *frame, m *syncMapModel, k iface) int {
 		for i := range m.keys {
 			mk := m.keys[i].(iface)
 			if !sameType(mk.t, k.t) {
 				continue
 			}
-			if ks, ok := mk.v.(string); ok {
-				if is, ok := k.v.(sstr); ok && len(is.b) != len(ks) {
-					continue
-				}
+			if la, lb := strLenOf(mk.v), strLenOf(k.v); la >= 0 && lb >= 0 && la != lb {
+				continue
 			}
 			c := equalsSym(k.t, mk.v, k.v)
-			if fr.i.ps != nil && fr.i.ps.branch(c) || fr.i.ps == nil && c.isConst() && c.val != 0 {
-				return tuple{m.vals[i], true}
+			if c.isConst() {
+				if c.val != 0 {
+					return i
+				}
+				continue
 			}
+			if fr.i.ps == nil {
+				unsupported("sync.Map with a symbolic key outside a path")
+			}
+			if fr.i.ps.branch(c) {
+				return i
+			}
+		}
+		return -1
+	}
+	smNoteWrite := func(fr *frame, m *syncMapModel, what string) {
+		if m.frozen {
+			if ps := fr.i.ps; ps != nil && ps.monitor != nil {
+				ps.monitor.recs["sync.Map."+what+" on a package-level map in "+callerName(fr)]++
+			}
+		}
+	}
+	reg("(*sync.Map).Store", "association table", func(fr *frame, args []value) value {
+		m := fr.i.syncMap(args[0].(*value))
+		smNoteWrite(fr, m, "Store")
+		k := args[1].(iface)
+		if i := smFind(fr, m, k); i >= 0 {
+			m.vals[i] = args[2]
+			return nil
+		}
+		m.keys = append(m.keys, k)
+		m.vals = append(m.vals, args[2])
+		return nil
+	})
+	reg("(*sync.Map).LoadOrStore", "association table", func(fr *frame, args []value) value {
+		m := fr.i.syncMap(args[0].(*value))
+		k := args[1].(iface)
+		if i := smFind(fr, m, k); i >= 0 {
+			return tuple{m.vals[i], true}
+		}
+		smNoteWrite(fr, m, "LoadOrStore")
+		m.keys = append(m.keys, k)
+		m.vals = append(m.vals, args[2])
+		return tuple{args[2], false}
+	})
+	reg("(*sync.Map).LoadAndDelete", "association table", func(fr *frame, args []value) value {
+		m := fr.i.syncMap(args[0].(*value))
+		k := args[1].(iface)
+		if i := smFind(fr, m, k); i >= 0 {
+			smNoteWrite(fr, m, "LoadAndDelete")
+			v := m.vals[i]
+			m.keys = append(m.keys[:i:i], m.keys[i+1:]...)
+			m.vals = append(m.vals[:i:i], m.vals[i+1:]...)
+			return tuple{v, true}
+		}
+		return tuple{iface{}, false}
+	})
+	reg("(*sync.Map).Swap", "association table", func(fr *frame, args []value) value {
+		m := fr.i.syncMap(args[0].(*value))
+		smNoteWrite(fr, m, "Swap")
+		k := args[1].(iface)
+		if i := smFind(fr, m, k); i >= 0 {
+			old := m.vals[i]
+			m.vals[i] = args[2]
+			return tuple{old, true}
+		}
+		m.keys = append(m.keys, k)
+		m.vals = append(m.vals, args[2])
+		return tuple{iface{}, false}
+	})
+	reg("(*sync.Map).Range", "association table (insertion order)", func(fr *frame, args []value) value {
+		m := fr.i.syncMap(args[0].(*value))
+		keys := append([]value(nil), m.keys...)
+		vals := append([]value(nil), m.vals...)
+		for i := range keys {
+			r := call(fr.i, fr, token.NoPos, args[1], []value{keys[i], vals[i]})
+			if b, ok := r.(bool); ok && !b {
+				break
+			}
+		}
+		return nil
+	})
+	reg("(*sync.Map).Load", "association table", func(fr *frame, args []value) value {
+		m := fr.i.syncMap(args[0].(*value))
+		k := args[1].(iface)
+		if i := smFind(fr, m, k); i >= 0 {
+			return tuple{m.vals[i], true}
 		}
 		return tuple{iface{}, false}
 	})
 	reg("(*sync.Map).Delete", "association table", func(fr *frame, args []value) value {
 		m := fr.i.syncMap(args[0].(*value))
 		k := args[1].(iface)
-		if containsSym(k) {
-			unsupported("sync.Map.Delete with a symbolic key")
-		}
-		if m.frozen {
-			if ps := fr.i.ps; ps != nil && ps.monitor != nil {
-				ps.monitor.recs["sync.Map.Delete on a package-level map in "+callerName(fr)]++
-			}
-		}
-		for i := range m.keys {
-			if equals(k.t, m.keys[i], k) {
-				m.keys = append(m.keys[:i], m.keys[i+1:]...)
-				m.vals = append(m.vals[:i], m.vals[i+1:]...)
-				return nil
-			}
+		if i := smFind(fr, m, k); i >= 0 {
+			smNoteWrite(fr, m, "Delete")
+			m.keys = append(m.keys[:i:i], m.keys[i+1:]...)
+			m.vals = append(m.vals[:i:i], m.vals[i+1:]...)
 		}
 		return nil
 	})
@@ -865,6 +922,16 @@ func init() {
 		var v value = structure{}
 		return &v
 	})
+}
+
+func strLenOf(v value) int {
+	switch x := v.(type) {
+	case string:
+		return len(x)
+	case sstr:
+		return len(x.b)
+	}
+	return -1
 }
 
 type syncMapModel struct {
